@@ -167,6 +167,34 @@ def run(ctx):
     okd = len(conv) == 1 and conv[0].args[1] == self_attr("xp")
     ctx.decide(okd, "C15.a2n", a2n.ident, loc_of(a2n), "array_to_namespace converts into the set's own namespace", "array_to_namespace does not convert into self.xp", disc="xp")
 
+    # ---- conversion helpers (entries of the frozen transparent-wrapper table) are value preserving
+    from ..evalr import TRANSPARENT_REPO_FUNCS as TRF
+    for name in ("asarray", "to_numpy", "safe_to_device", "copy_array"):
+        f = repo.func(f"aspire.utils:{name}")
+        saved_all = dict(TRF)
+        TRF.clear()
+        try:
+            evh = Evaluator(repo, max_depth=1)
+            rh = T.strip_raise(evh.run(f, None))
+        finally:
+            TRF.update(saved_all)
+        xin = T.atom(f.params[0])
+        leaves = list(T.phi_leaves(rh))
+        okh = all(l == xin or (l[0] == "f" and l[1].endswith("from_dlpack") and xin in l[2]) for l in leaves)
+        ctx.decide(okh, "C15.helpers", f.ident, loc_of(f), f"{name}(x, ...) returns x converted (value preserving) on every path",
+                   f"{name} returns {T.show(rh)[:160]}, which is not a conversion of its first argument on every path", disc="value")
+        if name == "asarray":
+            rd = [e for e in evh.events if e.callee == "aspire.utils:resolve_dtype"]
+            okd = len(rd) >= 1 and all(e.args and e.args[0] == T.atom("dtype") and dict(e.kwargs).get("xp", e.args[1] if len(e.args) > 1 else None) == T.atom("xp")
+                                       and any((c == ("is", T.atom("dtype"), T.NONE) and not pol) or (c == ("not", ("is", T.atom("dtype"), T.NONE)) and pol) for c, pol in e.conds) for e in rd)
+            conv = [e for e in evh.events if e.callee == "xp.asarray"]
+            okc = len(conv) == 1 and conv[0].args[0] == xin and any(r_.result in set(T.subterms(v)) for r_ in rd for _, v in conv[0].kwargs)
+            tos = [e for e in evh.events if e.callee == "method:to"]
+            dl = [e for e in evh.events if e.callee.endswith("from_dlpack")]
+            okt = (not dl) or (bool(tos) and all(any(r_.result == a for r_ in rd) for e in tos for a in e.args[1:]))
+            ctx.decide(okd and okc and okt, "C15.helpers", f.ident, loc_of(f), "a requested dtype is resolved for the target namespace and applied on both conversion paths",
+                       "asarray does not apply the requested dtype, resolved for the target namespace, on every conversion path (plain xp.asarray and the JAX->torch DLPack route)", disc="dtype")
+
     # ---- output namespace option
     A = repo.cls("aspire.aspire:Aspire")
     sp = A.methods["sample_posterior"]
@@ -267,6 +295,13 @@ MUTANTS += [
     M("SMCSamples.to_namespace loses beta", _S, "samples = super().to_namespace(xp, dtype=dtype)\n        samples.beta = self.beta\n", "samples = super().to_namespace(xp, dtype=dtype)\n", "C15.carry"),
     M("zuko log_prob with autograd", "src/aspire/flows/torch/flows.py", "with torch.no_grad():\n            x_prime, log_abs_det_jacobian = self.rescale(x)\n            log_prob = self._flow().log_prob(x_prime) + log_abs_det_jacobian", "if True:\n            x_prime, log_abs_det_jacobian = self.rescale(x)\n            log_prob = self._flow().log_prob(x_prime) + log_abs_det_jacobian", "C15.grad"),
     M("minipcn samples without dtype", "src/aspire/samplers/mcmc.py", "x, xp=self.xp, parameters=self.parameters, dtype=self.dtype", "x, xp=self.xp, parameters=self.parameters", "C15.pop", within="MiniPCN.sample"),
+]
+_U = "src/aspire/utils.py"
+MUTANTS += [
+    M("asarray drops the requested dtype", _U, "if dtype is not None:\n        kwargs[\"dtype\"] = resolve_dtype(dtype, xp=xp)\n    return xp.asarray(x, **kwargs)", "return xp.asarray(x, **kwargs)", "C15.helpers"),
+    M("DLPack route ignores the dtype", _U, "if dtype is not None:\n            tensor = tensor.to(resolve_dtype(dtype, xp=xp))\n        return tensor", "return tensor", "C15.helpers"),
+    M("asarray resolves the dtype for numpy", _U, "kwargs[\"dtype\"] = resolve_dtype(dtype, xp=xp)", "kwargs[\"dtype\"] = resolve_dtype(dtype, xp=np)", "C15.helpers"),
+    M("to_numpy returns something else on the fallback path", _U, "except (ValueError, NotImplementedError):\n        return np.asarray(x, **kwargs)", "except (ValueError, NotImplementedError):\n        return np.zeros_like(x)", "C15.helpers"),
 ]
 NEUTRALS = [
     M("to_namespace keyword order", _S, "xp=xp,\n            device=self.device,\n            dtype=dtype,", "dtype=dtype,\n            xp=xp,\n            device=self.device,"),
